@@ -4,18 +4,23 @@ VERIF = os.path.dirname(os.path.dirname(os.path.abspath(__file__)))
 PROOF = "proof"
 CHECKS = {
  "C08": dict(
-    text="Lean 4 theorems (any sizes, any field): the core produced by the exact right-to-left solve C·Q[local] = Q with invertible "
-         "Q[local] is the identity on the chosen rows (the algebraic reason the result interpolates the sampled fibres); the running "
-         "min/argmin bookkeeping returns a value attained at the recorded position and below every evaluated value; the contraction "
-         "patterns of cross.py are re-extracted from the source on every run. The clauses themselves — fibre interpolation on the "
-         "returned right index sets, evaluation only at grid points / entries of the argument tensors, recovery of representable "
-         "targets over seeds, operators through cross, min/max attained — are decided by running cross on small grids with seeded RNGs "
-         "against dense oracles.",
-    note="PARTIAL: no executable Lean model of the sweep itself is compared with the code (the tie is the source-derived einsum table and "
-         "the oracle); 'recovery for every seed' depends on floating-point maxvol pivots and is not a theorem — two known findings "
-         "(over-estimated bond next to an exact-rank bond) record seeds where it fails. Trusted: Lean kernel + standard axioms; "
-         "torch.linalg.qr/lstsq, maxvol (C17); harness glue; sampling of seeds.",
-    tech="Lean 4 proof of the interpolation and bookkeeping lemmas + source-derived obligations + seeded dense-oracle search",
+    text="Lean 4 theorems (any number of modes, sizes and ranks, any commutative semiring / field): cross_interpolates — after the "
+         "right-to-left sweep (each core the identity on its pivot columns, right index sets nested as rsetsOf of the maxvol pivots, first "
+         "core = function values) the result equals the sampled function on EVERY first-mode fibre through the returned right index sets "
+         "(tail_on_rsets: the product of cores j..N-1 at rsets[j-1][k] is the k-th unit vector, by induction over the chain); "
+         "pivot_identity_of_solve / solve_identity_on_pivots — that identity is what the exact solve C·Q[local] = Q with invertible Q[local] "
+         "delivers; the running min/argmin bookkeeping returns a value attained at the recorded position and below every evaluated value; the "
+         "contraction patterns of cross.py are re-extracted from the source on every run. Correspondence: in every cross run the maxvol pivots "
+         "are recorded, the compiled model computes the nested index sets from them (command cross_rsets) and they are compared EXACTLY with "
+         "info['rsets'] at every level; the theorem's hypotheses are validated numerically on the returned cores (histogram "
+         "theorem_hypotheses:*). The clauses themselves — fibre interpolation, evaluation only at grid points / entries of the argument "
+         "tensors, recovery of representable targets over seeds, operators through cross, min/max attained — are additionally decided by "
+         "running cross on small grids with seeded RNGs against dense oracles.",
+    note="PARTIAL: the sweep's numerical kernels (QR, maxvol, lstsq) enter the model as recorded answers with contracts; 'recovery for every "
+         "seed' depends on floating-point maxvol pivots and is not a theorem — two known findings (over-estimated bond next to an exact-rank "
+         "bond) record seeds where it fails. Trusted: Lean kernel + standard axioms; torch.linalg.qr/lstsq, maxvol (C17); harness glue; "
+         "sampling of seeds.",
+    tech="Lean 4 proof of the interpolation theorem and bookkeeping lemmas + checked correspondence of the index-set bookkeeping + source-derived obligations + seeded dense-oracle search",
     ref="§3 C08"),
  "C14": dict(
     text="Lean 4 theorems about a heap machine (storages, objects reaching storages, effect summaries): a Safe operation (it writes in "
